@@ -100,6 +100,8 @@ pub struct Tape {
     pub last_clone: u64,
     pub events: Vec<String>,
     pub live_blocks: StdMap<usize, (usize, usize)>,
+    /// which allocator instance handed out each live block
+    pub block_owner: StdMap<usize, u8>,
     pub alloc_errors: Vec<String>,
     /// when false, drops are not logged (harness-side drops of returned values)
     pub logging: bool,
@@ -264,9 +266,14 @@ pub fn counters() -> String {
     })
 }
 
-/// Allocator driven by the tape; checks that every block is returned once with its layout.
+/// Allocator driven by the tape; checks that every block is returned once, with its layout, to the
+/// allocator INSTANCE that handed it out (`id`). `TapeAlloc` (the constant below) is instance 0.
 #[derive(Clone, Copy, Default)]
-pub struct TapeAlloc;
+pub struct TapeAlloc {
+    pub id: u8,
+}
+#[allow(non_upper_case_globals)]
+pub const TapeAlloc: TapeAlloc = TapeAlloc { id: 0 };
 
 unsafe impl Allocator for TapeAlloc {
     fn allocate(&self, layout: Layout) -> Result<NonNull<[u8]>, AllocError> {
@@ -292,16 +299,29 @@ unsafe impl Allocator for TapeAlloc {
         let p = Global.allocate(layout)?;
         // poison fresh memory so that reads of uninitialised bytes are visible as garbage
         unsafe { std::ptr::write_bytes(p.as_ptr() as *mut u8, 0xA7, layout.size()) };
+        let id = self.id;
         with(|t| {
+            t.block_owner.insert(p.as_ptr() as *mut u8 as usize, id);
             t.live_blocks
                 .insert(p.as_ptr() as *mut u8 as usize, (layout.size(), layout.align()))
         });
         Ok(p)
     }
     unsafe fn deallocate(&self, ptr: NonNull<u8>, layout: Layout) {
+        let id = self.id;
         let known = with(|t| {
             t.events
                 .push(format!("fr{}/{}", layout.size(), layout.align()));
+            if let Some(owner) = t.block_owner.remove(&(ptr.as_ptr() as usize)) {
+                if owner != id {
+                    t.alloc_errors.push(format!(
+                        "block of {} bytes allocated by allocator instance {} was freed through instance {}",
+                        layout.size(),
+                        owner,
+                        id
+                    ));
+                }
+            }
             t.live_blocks.remove(&(ptr.as_ptr() as usize))
         });
         match known {
